@@ -78,8 +78,9 @@ func smallValue(t *rapid.T, attr jsonapi.Attr, label string) any {
 			{}, time.Date(9000, 1, 2, 3, 4, 5, 6, time.UTC),
 		}).Draw(t, label+"-time")
 	case jsonapi.AttrTypeBytes:
-		// (lengths differ too: the order is lexicographic, not by length)
-		b = rapid.SampledFrom([][]byte{{}, {1, 2}, {2, 1}, {0, 9, 9}, {1}, {1, 2, 0}}).Draw(t, label+"-bytes")
+		// (lengths differ too: the order is lexicographic, not by length; the
+		// empty byte string comes allocated and as a nil slice: a tie)
+		b = rapid.SampledFrom([][]byte{{}, nil, {1, 2}, {2, 1}, {0, 9, 9}, {1}, {1, 2, 0}}).Draw(t, label+"-bytes")
 	}
 
 	if attr.Nullable {
